@@ -229,8 +229,9 @@ pub fn gen_pin(src: &mut Src, o: &LefGenOpts) -> LefPin {
     }
 }
 pub fn gen_macro(src: &mut Src, o: &LefGenOpts, version_le_5p4: bool) -> LefMacro {
-    let npins = src.usize_in(0, 3);
-    let nobs = src.weighted(&[3, 2, 1]);
+    // (now and then a list long enough to outgrow any small inline buffer: pins, obstruction blocks, macros)
+    let npins = if src.prob(1, 60) { src.usize_in(17, 40) } else { src.usize_in(0, 3) };
+    let nobs = if src.prob(1, 60) { src.usize_in(9, 36) } else { src.weighted(&[3, 2, 1]) };
     let class = opt(src, 2, 3, |s| match s.below(6) {
         0 => LefMacroClass::Cover { bump: s.bool() },
         1 => LefMacroClass::Ring,
@@ -382,7 +383,7 @@ pub fn gen_lef(src: &mut Src, o: &LefGenOpts) -> LefLibrary {
         LefDecimal::new(v.0, v.1)
     });
     let le54 = version.map(|v| v <= LefDecimal::new(54, 1)).unwrap_or(false);
-    let nm = src.usize_in(0, o.max_macros);
+    let nm = if o.max_macros >= 3 && src.prob(1, 80) { src.usize_in(9, 34) } else { src.usize_in(0, o.max_macros) };
     let ns = if o.sites { src.weighted(&[3, 2, 1]) } else { 0 };
     let nv = src.weighted(&[3, 2, 1]);
     let nx = src.weighted(&[5, 1, 1]);
